@@ -2,6 +2,7 @@
 From ZV.Common Require Import Base.
 From ZV.C18 Require Import Model ProofsQueue ProofsOrder ProofsProgress ProofsComplete ProofsPar ProofsStream.
 From ZV.C18 Require Import ModelFiber ProofsFiber ProofsFiberReduce.
+From ZV.C18 Require Import ModelPipe ProofsPipe ProofsPipeStream.
 From Coq Require Import Permutation.
 Open Scope N_scope.
 
@@ -369,3 +370,145 @@ Check parallel_reduce_error_surfaces :
     In x xs -> (forall a, op a x = None) ->
     forall r, reduce_result op ident mw xs (pool_run (reduce_jobs op ident mw xs) maxf steps) = Some r -> r = None.
 Print Assumptions parallel_reduce_error_surfaces.
+
+(* Pipeline::execute_stream with the join loop as written (handles awaited in stage order, the first error kept) and
+   stage functions that may succeed, fail with an error of their own, time out or panic on each item: for every
+   non-empty stage list, input and interleaving of the stage tasks, once all stage tasks have ended the call
+   returns; if ANY stage function fails, times out or panics on an item that reaches it in the sequential run the
+   call returns Err (whichever stage it is - first, middle or last); and an Err that is returned is genuine: it is the
+   outcome of the lowest-numbered failed stage (all stages before it ended Ok) and the error of that stage's function
+   on an item of its sequential input stream (a panic is a join error) *)
+Theorem pipeline_error_surfaces :
+  forall (A : Type) (fs : list (A -> sres A)) (inputs : list A) (sched : list nat),
+    fs <> [] ->
+    let st := pstream_run fs inputs sched in
+    pstream_finished st = true ->
+    (exists r, exec_stream_result fs st = Some r) /\
+    ((exists j f x, nth_error fs j = Some f /\ In x (want_upto (map erase_f fs) inputs j) /\ forall y, f x <> SOk y) ->
+       exists e, exec_stream_result fs st = Some (Some e)) /\
+    (forall e, exec_stream_result fs st = Some (Some e) ->
+       exists j f s, nth_error fs j = Some f /\ nth_error st j = Some s /\ stage_err (g_status s) = Some e /\
+         (forall i s', (i < j)%nat -> nth_error st i = Some s' -> stage_err (g_status s') = None) /\
+         exists x, In x (want_upto (map erase_f fs) inputs j) /\ err_of (f x) = Some e).
+Proof. exact (@pipeline_error_proof). Qed.
+Check pipeline_error_surfaces :
+  forall (A : Type) (fs : list (A -> sres A)) (inputs : list A) (sched : list nat),
+    fs <> [] ->
+    let st := pstream_run fs inputs sched in
+    pstream_finished st = true ->
+    (exists r, exec_stream_result fs st = Some r) /\
+    ((exists j f x, nth_error fs j = Some f /\ In x (want_upto (map erase_f fs) inputs j) /\ forall y, f x <> SOk y) ->
+       exists e, exec_stream_result fs st = Some (Some e)) /\
+    (forall e, exec_stream_result fs st = Some (Some e) ->
+       exists j f s, nth_error fs j = Some f /\ nth_error st j = Some s /\ stage_err (g_status s) = Some e /\
+         (forall i s', (i < j)%nat -> nth_error st i = Some s' -> stage_err (g_status s') = None) /\
+         exists x, In x (want_upto (map erase_f fs) inputs j) /\ err_of (f x) = Some e).
+Print Assumptions pipeline_error_surfaces.
+
+(* ... and under every interleaving what has been delivered is a prefix of the sequential result (stage after stage
+   in input order); when all stage tasks have ended and execute_stream returns Ok(()) it is the complete sequential
+   result, one output per input *)
+Theorem pipeline_order_preserved :
+  forall (A : Type) (fs : list (A -> sres A)) (inputs : list A) (sched : list nat),
+    let st := pstream_run fs inputs sched in
+    (exists rest, stream_want (map erase_f fs) inputs = pstream_output fs inputs st ++ rest) /\
+    (pstream_finished st = true -> exec_stream_result fs st = Some None ->
+       pstream_output fs inputs st = stream_want (map erase_f fs) inputs /\
+       length (pstream_output fs inputs st) = length inputs).
+Proof. exact (@pipeline_order_proof). Qed.
+Check pipeline_order_preserved :
+  forall (A : Type) (fs : list (A -> sres A)) (inputs : list A) (sched : list nat),
+    let st := pstream_run fs inputs sched in
+    (exists rest, stream_want (map erase_f fs) inputs = pstream_output fs inputs st ++ rest) /\
+    (pstream_finished st = true -> exec_stream_result fs st = Some None ->
+       pstream_output fs inputs st = stream_want (map erase_f fs) inputs /\
+       length (pstream_output fs inputs st) = length inputs).
+Print Assumptions pipeline_order_preserved.
+
+(* Pipeline::process_batch as written, item by item (path 0: one timeout per item, `??`) or through the stage's default
+   process_batch under one timeout (path <> 0): Ok(l) means one result per input, in input order, each the stage's
+   result for that input, and the statistics are restored (total_processed += n, items_in_flight unchanged); if some
+   item fails, times out or panics the call does not return Ok; an Err is the error of the FIRST item in input order
+   that is not Ok (its own error, or the per-item resp. whole-batch timeout) and every item before it succeeded *)
+Theorem process_batch_is_map :
+  forall (A B : Type) (path : N) (f : A -> sres B) (xs : list A) (st : pstats) r st',
+    process_batch path f xs st = (r, st') ->
+    (forall l, r = COk l ->
+       Forall2 (fun x y => f x = SOk y) xs l /\
+       ps_processed st' = ps_processed st + nlen xs /\ ps_in_flight st' = ps_in_flight st) /\
+    ((exists x, In x xs /\ forall y, f x <> SOk y) -> forall l, r <> COk l) /\
+    (forall e, r = CErr e ->
+       exists pre x post, xs = pre ++ x :: post /\ (forall z, In z pre -> exists y, f z = SOk y) /\
+                          item_err f (batch_tmo path) x = Some e).
+Proof. exact process_batch_proof. Qed.
+Check process_batch_is_map :
+  forall (A B : Type) (path : N) (f : A -> sres B) (xs : list A) (st : pstats) r st',
+    process_batch path f xs st = (r, st') ->
+    (forall l, r = COk l ->
+       Forall2 (fun x y => f x = SOk y) xs l /\
+       ps_processed st' = ps_processed st + nlen xs /\ ps_in_flight st' = ps_in_flight st) /\
+    ((exists x, In x xs /\ forall y, f x <> SOk y) -> forall l, r <> COk l) /\
+    (forall e, r = CErr e ->
+       exists pre x post, xs = pre ++ x :: post /\ (forall z, In z pre -> exists y, f z = SOk y) /\
+                          item_err f (batch_tmo path) x = Some e).
+Print Assumptions process_batch_is_map.
+
+(* execute_two_stage = the second stage applied to the first stage's result; the first failure (error, timeout, panic) is what the caller gets *)
+Theorem two_stage_composes :
+  forall (A B C : Type) (f1 : A -> sres B) (f2 : B -> sres C) (x : A) (st : pstats),
+    fst (exec_two_stage f1 f2 x st) =
+      match f1 x with
+      | SOk y => match f2 y with SOk z => COk z | SFail e => CErr (EStage e) | STimeout => CErr ETimeout | SPanic => CPanic end
+      | SFail e => CErr (EStage e)
+      | STimeout => CErr ETimeout
+      | SPanic => CPanic
+      end.
+Proof. exact exec_two_stage_proof. Qed.
+Check two_stage_composes :
+  forall (A B C : Type) (f1 : A -> sres B) (f2 : B -> sres C) (x : A) (st : pstats),
+    fst (exec_two_stage f1 f2 x st) =
+      match f1 x with
+      | SOk y => match f2 y with SOk z => COk z | SFail e => CErr (EStage e) | STimeout => CErr ETimeout | SPanic => CPanic end
+      | SFail e => CErr (EStage e)
+      | STimeout => CErr ETimeout
+      | SPanic => CPanic
+      end.
+Print Assumptions two_stage_composes.
+
+(* BatchCollector with a clock and concurrent checkers: for every max_batch_size, batch_timeout and every history of
+   add / flush / check_timeout / passing time - check_timeout also split into its two critical sections, several
+   checker tasks interleaved with adds between them - the batches the operations return, in the order of the
+   operations, followed by the buffer are exactly the added items in order (nothing lost, duplicated or reordered by a
+   timeout flush); no returned batch is empty; with max_batch_size >= 1 no batch is longer than it *)
+Theorem batch_collector_partition :
+  forall (A : Type) (maxb timeout : N) (ops : list (bop A)) bf outs,
+    bc_run maxb timeout bc_init ops = (bf, outs) ->
+    cat_outs outs ++ bc_buf bf = badded ops /\
+    length outs = length ops /\
+    Forall (fun o => match o with Some l => l <> [] | None => True end) outs /\
+    (0 < maxb -> nlen (bc_buf bf) < maxb /\ Forall (fun o => match o with Some l => nlen l <= maxb | None => True end) outs).
+Proof. exact batch_collector_proof. Qed.
+Check batch_collector_partition :
+  forall (A : Type) (maxb timeout : N) (ops : list (bop A)) bf outs,
+    bc_run maxb timeout bc_init ops = (bf, outs) ->
+    cat_outs outs ++ bc_buf bf = badded ops /\
+    length outs = length ops /\
+    Forall (fun o => match o with Some l => l <> [] | None => True end) outs /\
+    (0 < maxb -> nlen (bc_buf bf) < maxb /\ Forall (fun o => match o with Some l => nlen l <= maxb | None => True end) outs).
+Print Assumptions batch_collector_partition.
+
+(* an undisturbed check_timeout returns the whole buffer exactly when it is non-empty and batch_timeout has passed since the last flush; otherwise it returns nothing and changes nothing *)
+Theorem collector_timeout_not_early :
+  forall (A : Type) (maxb timeout : N) (b : bcoll A),
+    (bc_due timeout b = true ->
+       bc_step maxb timeout b BCheck = (mkBC [] (bc_now b) (bc_now b) (bc_pending b), Some (bc_buf b))
+       /\ bc_buf b <> [] /\ timeout <= bc_now b - bc_last b) /\
+    (bc_due timeout b = false -> bc_step maxb timeout b BCheck = (b, None)).
+Proof. exact (@bc_check_due). Qed.
+Check collector_timeout_not_early :
+  forall (A : Type) (maxb timeout : N) (b : bcoll A),
+    (bc_due timeout b = true ->
+       bc_step maxb timeout b BCheck = (mkBC [] (bc_now b) (bc_now b) (bc_pending b), Some (bc_buf b))
+       /\ bc_buf b <> [] /\ timeout <= bc_now b - bc_last b) /\
+    (bc_due timeout b = false -> bc_step maxb timeout b BCheck = (b, None)).
+Print Assumptions collector_timeout_not_early.
